@@ -257,8 +257,13 @@ impl CanonicalRequest {
                         pq.push_str(&qs);
                     }
 
-                    parts.uri =
-                        Uri::builder().path_and_query(pq).build().expect("failed to rebuild URI with new query string");
+                    // The merged query string can exceed what a URI may hold (the http crate caps a URI at 64 KiB).
+                    parts.uri = Uri::builder().path_and_query(pq).build().map_err(|e| {
+                        SignatureError::MalformedQueryString(format!(
+                            "Unable to merge application/x-www-form-urlencoded body into the query string: {}",
+                            e
+                        ))
+                    })?;
                     body = Bytes::from("");
                 }
             }
